@@ -245,7 +245,7 @@ package varmq
 // pending. Every dispatch decision re-reads status, in-flight count, limit and backlog (nothing is cached across a dispatch), errors are
 // reported without blocking and do not end the loop; the goroutine returns only when its signal channel is closed.
 //@ func worker.goEventLoop$1
-//@   props C02 C03 C09 C11 C12 C06
+//@   props C02 C03 C09 C11 C12 C06 C01
 //@   requires signal != nil && $deref(w) != nil && PoolOK($deref(w)) && QM($deref(w)) && ChanOK($deref(w).errorChan) && $deref(w).waiters != nil
 //@   requires forall i int :: 0 <= i && i < len($deref(w).queues.Manager.items) ==> $deref(w).queues.Manager.items[i] != nil
 //@   modifies $chan(signal), $open(signal), $chan($deref(w).errorChan), $deref(w).queues.Manager.roundRobinIndex, $lenOf, $deq, $deref(w).curProcessing, $jstatus, $jackid, $jqueue, $alloc,
@@ -304,7 +304,7 @@ package varmq
 // start: from Running / Paused / Stopped it refuses and changes nothing; from Initiated it creates exactly one dispatcher, the reaper (iff
 // idle expiry), the context listener (iff a context), the first idle pool node, stores Running and raises the initial signal.
 //@ func worker.start
-//@   props C14 C02 C03 C18
+//@   props C14 C02 C03 C18 C09
 //@   requires RI_worker(w) && w.Configs.idleWorkerExpiryDuration >= 0 && len(w.tickers) < MaxInt
 //@   modifies w.status, $alloc, $spawned, w.$disp, w.$reapers, w.$listeners, w.$nodes, w.tickers, w.tickers[**], key G:$tickersLive, $chan(w.eventLoopSignal),
 //@            linkedlist.Node.next, linkedlist.Node.prev, w.pool.List.len, w.pool.List.$at, w.pool.List.$pos, w.pool.List.$in
